@@ -3,6 +3,9 @@ package main
 import (
 	"fmt"
 	"go/types"
+	"os"
+	"sort"
+	"strings"
 )
 
 // Assumed contracts on github.com/samber/lo higher-order helpers, axiomatised over the (inlined,
@@ -49,6 +52,245 @@ func (cx *callCtx) applyClosure(ci int, args []Term) (res Term, ok bool) {
 	return rs[0], true
 }
 
+// closureEffects: a library helper ran closure argument ci an unknown number of times. The term-level models
+// below evaluate the closure as a pure function on a copy of the state, so whatever the closure WRITES has to
+// be accounted for separately: a probe execution (arbitrary arguments) finds the heap components it writes and
+// those become arbitrary (local-only objects of the caller excepted), captured variables it assigns included.
+// A closure under a `modifies nothing` contract is verified separately and has no effect; a closure that
+// cannot be executed here (unknown function value, loops, recursion) is treated as an unknown call.
+func (cx *callCtx) closureEffects(ci int) {
+	fr := cx.fr
+	e := fr.eng
+	vc := e.vc
+	if cx.spec || ci >= len(cx.argVs) {
+		return
+	}
+	clo := fr.closureOf(cx.argVs[ci])
+	if clo == nil || len(clo.fn.Blocks) == 0 || hasLoops(clo.fn) || fr.depth >= e.maxDepth || fr.recursive(clo.fn) {
+		vc.warn = append(vc.warn, cx.name+": effects of the function argument unknown; call havocked")
+		fr.havocCall(cx, cx.name+": function argument with unknown effects")
+		return
+	}
+	if con := e.closureContract(clo.fn); con != nil && con.HasMod && !con.ModAll && len(con.Modifies) == 0 {
+		return
+	}
+	vc.dry++
+	saveA, saveLog := len(vc.asserts), len(e.callLog)
+	saveRng, saveInl := e.rngCtr, e.inlineN
+	saveNoname := vc.noname
+	saveDefs := vc.nameDefs
+	vc.nameDefs = map[string]string{} // the probe's heap terms are read below through the names it introduces
+	allocBefore := cx.st.alloc
+	probe := cx.st.clone()
+	func() {
+		defer func() {
+			if r := recover(); r != nil {
+				vc.noname = saveNoname
+				switch r.(type) {
+				case specErr, unsupported:
+					// cannot be executed: every component may have changed
+					for c := range e.compSort {
+						probe.heap[c] = "?"
+					}
+				default:
+					panic(r)
+				}
+			}
+		}()
+		var as []Term
+		for i := 0; i < clo.fn.Signature.Params().Len(); i++ {
+			t := clo.fn.Signature.Params().At(i).Type()
+			a := vc.fresh("probe.arg", vc.sortOf(t))
+			e.wf(probe, a, t)
+			as = append(as, a)
+		}
+		sub := &callCtx{fr: fr, st: probe, args: as, callee: clo.fn, name: canonName(clo.fn), sig: clo.fn.Signature, instr: cx.instr, common: cx.common, spec: true}
+		for i := 0; i < clo.fn.Signature.Params().Len(); i++ {
+			sub.argTs = append(sub.argTs, clo.fn.Signature.Params().At(i).Type())
+		}
+		fr.inline(sub, clo, nil)
+	}()
+	vc.noname = saveNoname
+	defs := vc.nameDefs
+	vc.nameDefs = saveDefs
+	vc.asserts = vc.asserts[:saveA]
+	e.callLog = e.callLog[:saveLog]
+	e.rngCtr, e.inlineN = saveRng, saveInl
+	vc.dry--
+	var mods []string
+	for c, t := range probe.heap {
+		if strings.HasPrefix(c, "$") {
+			continue
+		}
+		for k := 0; k < 64; k++ { // a control-flow merge inside the closure may only have renamed the version
+			d, isName := defs[t]
+			if !isName {
+				break
+			}
+			t = d
+		}
+		if e.get(cx.st, c) != t {
+			mods = append(mods, c)
+		}
+	}
+	sort.Strings(mods)
+	if os.Getenv("KVC_DEBUG_EFFECTS") != "" {
+		fmt.Fprintf(os.Stderr, "closureEffects %s arg %d (%s): %d comps modified: %v\n", cx.name, ci, clo.fn.Name(), len(mods), mods)
+		for _, c := range mods {
+			t := probe.heap[c]
+			if len(t) > 300 {
+				t = t[:300]
+			}
+			fmt.Fprintf(os.Stderr, "   %s: %s   [old %s] alloc %s\n", c, t, e.get(cx.st, c), allocBefore)
+		}
+	}
+	for _, c := range mods {
+		if _, ok := e.compSort[c]; !ok {
+			continue
+		}
+		if storesOnlyToFresh(probe.heap[c], e.get(cx.st, c), allocBefore, defs, e.freshOnly) && strings.HasPrefix(e.compSort[c], "(Array Loc ") {
+			// the closure wrote this component only inside objects it allocated itself: what existed before is untouched
+			old := e.get(cx.st, c)
+			nw := vc.fresh("hv$"+c, e.compSort[c])
+			e.nilMapEmpty(c, nw)
+			vc.assumeIf(cx.st.pc, fmt.Sprintf("(forall ((l Loc)) (! (=> (< (rootid l) %s) (= (select %s l) (select %s l))) :pattern ((select %s l))))", allocBefore, nw, old, nw))
+			cx.st.heap[c] = nw
+			if e.freshOnly == nil {
+				e.freshOnly = map[string]string{}
+			}
+			e.freshOnly[nw] = old // an enclosing probe may step over this version: it differs from old only in newer objects
+			continue
+		}
+		e.havocComp(cx.st, c)
+	}
+	fr.havocCaptured(cx.st, clo)
+	if len(mods) > 0 {
+		na := vc.fresh("alloc", "Int")
+		vc.assume(fmt.Sprintf("(>= %s %s)", na, cx.st.alloc))
+		cx.st.alloc = na
+	}
+}
+
+// splitSexp: the top-level elements of "(f a b c)" -> [f a b c]; nil when t is not a list.
+func splitSexp(t string) []string {
+	if len(t) < 2 || t[0] != '(' || t[len(t)-1] != ')' {
+		return nil
+	}
+	var out []string
+	depth, start, bar := 0, -1, false
+	for i := 1; i < len(t)-1; i++ {
+		ch := t[i]
+		if bar {
+			if ch == '|' {
+				bar = false
+			}
+			continue
+		}
+		switch {
+		case ch == '|':
+			bar = true
+			if start < 0 {
+				start = i
+			}
+		case ch == '(':
+			if depth == 0 && start < 0 {
+				start = i
+			}
+			depth++
+		case ch == ')':
+			depth--
+		case ch == ' ' && depth == 0:
+			if start >= 0 {
+				out = append(out, t[start:i])
+				start = -1
+			}
+		default:
+			if start < 0 {
+				start = i
+			}
+		}
+	}
+	if start >= 0 {
+		out = append(out, t[start:len(t)-1])
+	}
+	return out
+}
+
+// storesOnlyToFresh: heap term t is `old` with stores whose locations all lie inside objects allocated at or
+// after allocation counter a (syntactically: (obj a), (obj (+ a 1)), ... possibly under fld/idx/sidx).
+func storesOnlyToFresh(t, old, a string, defs, freshOnly map[string]string) bool {
+	res := func(x string) string {
+		for k := 0; k < 64; k++ {
+			d, ok := defs[x]
+			if !ok {
+				break
+			}
+			x = d
+		}
+		return x
+	}
+	freshCtr := func(x string) bool {
+		for x != a {
+			x = res(x)
+			if x == a {
+				break
+			}
+			p := splitSexp(x)
+			if len(p) != 3 || p[0] != "+" || p[2] != "1" {
+				return false
+			}
+			x = p[1]
+		}
+		return true
+	}
+	var freshLoc func(l string) bool
+	freshLoc = func(l string) bool {
+		p := splitSexp(res(l))
+		switch {
+		case len(p) == 2 && p[0] == "obj":
+			return freshCtr(p[1])
+		case len(p) == 3 && (p[0] == "fld" || p[0] == "idx"):
+			return freshLoc(p[1])
+		case len(p) == 3 && p[0] == "sidx":
+			if q := splitSexp(res(p[1])); len(q) == 5 && q[0] == "mkslice" {
+				return freshLoc(q[1])
+			}
+		}
+		return false
+	}
+	memo := map[string]bool{}
+	var chain func(t string, depth int) bool
+	chain = func(t string, depth int) bool {
+		t = res(t)
+		if t == old {
+			return true
+		}
+		if v, ok := memo[t]; ok {
+			return v
+		}
+		ok := false
+		if depth < 400 {
+			if o, isFO := freshOnly[t]; isFO {
+				ok = chain(o, depth+1)
+			} else if p := splitSexp(t); len(p) == 4 && p[0] == "store" {
+				ok = freshLoc(p[2]) && chain(p[1], depth+1)
+			} else if len(p) == 4 && p[0] == "ite" {
+				ok = chain(p[2], depth+1) && chain(p[3], depth+1)
+			}
+		}
+		if !ok && os.Getenv("KVC_DEBUG_EFFECTS") != "" {
+			x := t
+			if len(x) > 300 {
+				x = x[:300]
+			}
+			fmt.Fprintf(os.Stderr, "      not fresh-only at: %s  (a=%s)\n", x, a)
+		}
+		memo[t] = ok
+		return ok
+	}
+	return res(t) != old && chain(t, 0)
+}
+
 func (cx *callCtx) elemAt(sliceT types.Type, s Term, i Term) (Term, bool) {
 	sl, ok := sliceT.Underlying().(*types.Slice)
 	if !ok {
@@ -65,6 +307,7 @@ func init() {
 			vc := e.vc
 			xs := cx.args[0]
 			sl := cx.argTs[0].Underlying().(*types.Slice)
+			cx.closureEffects(1)
 			if isStructLike(sl.Elem()) {
 				return cx.freshResults("filtered")
 			}
@@ -109,6 +352,7 @@ func init() {
 		xs := cx.args[0]
 		sl := cx.argTs[0].Underlying().(*types.Slice)
 		rt := cx.sig.Results().At(0).Type().Underlying().(*types.Slice)
+		cx.closureEffects(1)
 		if isStructLike(sl.Elem()) || isStructLike(rt.Elem()) {
 			return cx.freshResults("mapped")
 		}
@@ -131,6 +375,7 @@ func init() {
 	stubs[loPkg+"ContainsBy"] = func(cx *callCtx) []Term {
 		xs := cx.args[0]
 		sl := cx.argTs[0].Underlying().(*types.Slice)
+		cx.closureEffects(1)
 		if isStructLike(sl.Elem()) {
 			return cx.freshResults("containsby")
 		}
